@@ -795,6 +795,13 @@ func nonConvergenceCause(w *World, wt *watcher) string {
 			return "on-lagging-chain-although-current-when-better-peer-connected"
 		}
 	}
+	// The honest node in the ban store although nothing false is committed:
+	// did the client cut its connection itself at some point? (A peer that
+	// answered a filter-header query and is gone when the conflict's filters
+	// are fetched is branded bad, whoever closed the connection.)
+	if w.cs.IsBanned(w.peers[0].addr.String()) && w.peers[0].clientCuts > 0 {
+		return "honest-node-banned-after-the-client-cut-its-connection"
+	}
 	// Is the client the sync victim of connected nodes that serve the
 	// heavier branch only in batches none of which is heavier, on its own,
 	// than what it would displace? (The client judges a reorganisation per
